@@ -184,6 +184,10 @@ def run_impl(script, cases, timeout=900, hashseed='0', shards=8, extra_env=None)
         return []
     shards = max(1, min(shards, (len(cases) + 19) // 20))
     chunks = [cases[i::shards] for i in range(shards)]
+    if shards > 1:
+        # The library writes its default configuration files (YAML, untracked) when it is imported for the first time in a checkout;
+        # parallel first imports race on them (one process reads a file another is still writing).  Import once, serially, first.
+        sh([VENV_PY, f"{ROOT}/{script}"], 300, cwd='/', env=env, inp='[]')
 
     def one(chunk):
         rc, out, err = sh([VENV_PY, f"{ROOT}/{script}"], timeout, cwd='/', env=env, inp=json.dumps(chunk))
